@@ -462,26 +462,25 @@ func runC07(c *eng.Ctx) {
 			r6.Check(fg.OnlyVia(offNode, nil, isSync) && fg.OnlyVia(offNode, nil, noGroup), f.Key+" combine-switch", offNode.Node.Pos(), "switched off only for Type==Synchronization && Group==\"\"", "combining is switched off for tasks other than un-grouped Synchronizations: their following tasks are not merged (or an un-grouped Synchronization is combined)")
 			// ... and always for them: when nothing is known to contradict "kubernetes Synchronization without group",
 			// the combine call cannot be reached without passing the switch-off
-			neg := func(pos func(*eng.GEdge) bool) func(*eng.GEdge) bool { return pos }
-			notSync := fg.FactEdge(func(fc eng.Fact) bool {
-				x, y, eq, ok := eng.EqAtom(fc)
-				s, isS := ast.Unparen(x).(*ast.SelectorExpr)
-				return ok && !eq && isS && s.Sel.Name == "Type" && eng.SelObj(finfo, y) == syncT
-			})
-			hasGroup := fg.FactEdge(func(fc eng.Fact) bool {
-				x, y, eq, ok := eng.EqAtom(fc)
-				s, isS := ast.Unparen(x).(*ast.SelectorExpr)
-				v, isC := eng.ConstStr(finfo, y)
-				return ok && !eq && isS && s.Sel.Name == "Group" && isC && v == ""
-			})
 			kube := p.Object(pkgHTypes, "OnKubernetesEvent")
-			notKube := fg.FactEdge(func(fc eng.Fact) bool {
+			assumed := func(fc eng.Fact) bool {
 				x, y, eq, ok := eng.EqAtom(fc)
+				if !ok || !eq {
+					return false
+				}
 				s, isS := ast.Unparen(x).(*ast.SelectorExpr)
-				return ok && !eq && isS && s.Sel.Name == "BindingType" && eng.SelObj(finfo, y) == kube
-			})
-			_ = neg
-			reach := fg.Reach(eng.Query{FromEntry: true, AvoidEdge: func(e *eng.GEdge) bool { return notSync(e) || hasGroup(e) || notKube(e) }, AvoidNode: func(n *eng.GNode) bool { return n == offNode }})
+				if !isS {
+					return false
+				}
+				if s.Sel.Name == "Type" && eng.SelObj(finfo, y) == syncT {
+					return true
+				}
+				if v, isC := eng.ConstStr(finfo, y); s.Sel.Name == "Group" && isC && v == "" {
+					return true
+				}
+				return s.Sel.Name == "BindingType" && eng.SelObj(finfo, y) == kube
+			}
+			reach := fg.Reach(eng.Query{FromEntry: true, AvoidEdge: fg.Infeasible(assumed), AvoidNode: func(n *eng.GNode) bool { return n == offNode }})
 			r6.Check(!reach[cnode], f.Key+" never-combine-ungrouped-sync", offNode.Node.Pos(), "an un-grouped kubernetes Synchronization always switches combining off", "an un-grouped Synchronization can reach the combine call: Synchronizations of different bindings would be merged into one execution")
 			// flag is initialised true and the combine call is reached whenever it stays true: no other false stores
 			n := 0
